@@ -655,7 +655,7 @@ def split_includes(rng, toks, max_files=4):
                 name = "%sinc%d.jst" % (sub, counter[0])
                 body = build(ts[i:i + ln], depth + 1, prefix + sub)
                 if rng.random() < 0.3:
-                    body = rng.choice([b"\n", b"\n\n", b"   \n", b"# head\n\n"]) + body + rng.choice([b"", b"\n\n"])
+                    body = rng.choice([b"\n", b"\n\n", b"   \n"]) + body + rng.choice([b"", b"\n\n"])
                 files[prefix + name] = body
                 out.append(b"INCLUDE " + (b'"' + name.encode() + b'"' if rng.random() < 0.3 else name.encode()) + b"\n")
                 i += ln
